@@ -4,8 +4,8 @@ evaluation times).  No sc3 import.
 Domain restrictions (documented domains of the shapes):
   * 'exp' only between levels of the same sign, none zero;
   * 'sqr' only with non-negative levels (square root); 'cub' with any sign;
-  * curvature numbers within +-30 (exp(curve) must stay finite and the
-    server works in single precision);
+  * curvature numbers within +-50 (exp(curve) must stay finite in the
+    server's single precision, exp(88) overflows there);
   * durations are 0 (zero-length segment) or within [2**-10, 16].
 Only documented shape names are generated (the table of the Env class
 documentation: step, lin/linear, exp/exponential, sin/sine, wel/welch,
@@ -58,14 +58,25 @@ def gen_curve_item(rng, cls):
         names += CUB_NAMES
     if rng.random() < 0.45:
         return rng.choice([-4, -4.0, 4, 0, 0.0, 1, -1, 2.5, -8.0, 1e-5, 30, -30,
+                           50, -50.0, 1e-9, -1e-9, 1e-4, -1e-4, 9.9e-5,
                            round(rng.uniform(-10, 10), 2)])
     return rng.choice(names)
 
 
-def gen_env_args(rng, cls=None):
+def gen_env_args(rng, cls=None, single_ok=False):
     """-> dict(levels, times, curves, release_node, loop_node, cls, dyadic,
     multichannel)"""
     cls = cls or rng.choice(['any', 'any', 'pos', 'pos', 'neg', 'nonneg'])
+    if single_ok and rng.random() < 0.02:
+        # one level, no segment: only the encoding is defined (the library
+        # refuses to evaluate it: "Env must have at least one stage")
+        lv = gen_level(rng, cls)
+        multi = rng.random() < 0.3
+        return dict(levels=[[lv, gen_level(rng, cls)] if multi else lv],
+                    times=rng.choice([None, 1, [1, 2]]),
+                    curves=rng.choice(['lin', -4, ['sin', 2]]),
+                    release_node=None, loop_node=None, cls=cls, dyadic=True,
+                    multichannel=multi)
     nlev = rng.choice([2, 2, 3, 3, 4, 5, rng.randint(2, 12)])
     nseg = nlev - 1
     levels = [gen_level(rng, cls) for _ in range(nlev)]
@@ -97,6 +108,11 @@ def gen_env_args(rng, cls=None):
         loop = rng.randint(0, release)
     elif rng.random() < 0.05:
         loop = rng.randint(0, max(0, nseg - 1))
+    if single_ok and rng.random() < 0.04:
+        # node numbers are passed to the server as given, also outside the
+        # segments
+        release = rng.choice([nseg, nseg + 3, -1, release])
+        loop = rng.choice([nseg + 1, -2, loop])
     multi = False
     if rng.random() < 0.18:
         # multichannel: nested per-channel entries in levels / times / curves
@@ -153,15 +169,40 @@ def gen_eval_times(rng, bp, dyadic, k=20):
 
 # -- constructor calls -------------------------------------------------------
 
+def mul(a, b):
+    return a * b
+
+
+def add(a, b):
+    return a + b
+
+
+def ew(op, a, b):
+    """Element-wise with wrapping when an operand is a (per-channel) list."""
+    if isinstance(a, list) or isinstance(b, list):
+        la = a if isinstance(a, list) else [a]
+        lb = b if isinstance(b, list) else [b]
+        return [op(la[i % len(la)], lb[i % len(lb)])
+                for i in range(max(len(la), len(lb)))]
+    return op(a, b)
+
+
 def gen_ctor_call(rng):
     """-> (name, kwargs, expected) where expected is dict(levels, times, curves,
     release_node, loop_node[, offset, xs]) from the documentation of the
     constructor, or check flags."""
     name = rng.choice(['triangle', 'sine', 'perc', 'linen', 'cutoff', 'adsr',
                        'dadsr', 'asr', 'step', 'pairs', 'xyc'])
-    tm = lambda: rng.choice([0.01, 0.1, 1, 1.0, 0.3, 2, 0.5,
-                             round(rng.uniform(0.001, 4), 3)])
-    lv = lambda: rng.choice([1, 1.0, 0.5, 0.1, 2, round(rng.uniform(0.01, 4), 3)])
+    tm1 = lambda: rng.choice([0.01, 0.1, 1, 1.0, 0.3, 2, 0.5, 0, 0.0,
+                              round(rng.uniform(0.001, 4), 3)])
+    lv1 = lambda: rng.choice([1, 1.0, 0.5, 0.1, 2, round(rng.uniform(0.01, 4), 3)])
+    # every time / level parameter is documented as "list | float | int":
+    # a list makes the envelope multichannel
+    many = lambda f: [f() for _ in range(rng.randint(2, 3))] \
+        if listy and rng.random() < 0.35 else f()
+    listy = name not in ('step', 'pairs', 'xyc') and rng.random() < 0.3
+    tm = lambda: many(tm1)
+    lv = lambda: many(lv1)
     num_curve = lambda: rng.choice([-4.0, -4, 4, 0, 2.5, -1,
                                     round(rng.uniform(-8, 8), 2)])
     any_curve = lambda: rng.choice([num_curve(), 'lin', 'sin', 'wel', 'sqr',
@@ -177,7 +218,8 @@ def gen_ctor_call(rng):
         kw = some(dict(dur=tm(), level=lv()))
         dur = kw.get('dur', 1.0)
         level = kw.get('level', 1.0)
-        exp = dict(levels=[0, level, 0], times=[dur * 0.5, dur * 0.5],
+        exp = dict(levels=[0, level, 0],
+                   times=[ew(mul, dur, 0.5), ew(mul, dur, 0.5)],
                    curves='lin' if name == 'triangle' else 'sine',
                    release_node=None, loop_node=None)
     elif name == 'perc':
@@ -212,8 +254,8 @@ def gen_ctor_call(rng):
                    release_node=0, loop_node=None)
     elif name in ('adsr', 'dadsr'):
         kw = dict(attack_time=tm(), decay_time=tm(),
-                  sustain_level=rng.choice([0.5, 0.25, 1, 0.1,
-                                            round(rng.random(), 2)]),
+                  sustain_level=many(lambda: rng.choice(
+                      [0.5, 0.25, 1, 0.1, round(rng.random(), 2)])),
                   release_time=tm(), peak_level=lv(), curve=any_curve(),
                   bias=rng.choice([0, 0.0, 0.5, -1, 2]))
         if name == 'dadsr':
@@ -222,7 +264,7 @@ def gen_ctor_call(rng):
         peak = kw.get('peak_level', 1.0)
         sus = kw.get('sustain_level', 0.5)
         bias = kw.get('bias', 0.0)
-        levels = [0, peak, peak * sus, 0]
+        levels = [0, peak, ew(mul, peak, sus), 0]
         times = [kw.get('attack_time', 0.01), kw.get('decay_time', 0.3),
                  kw.get('release_time', 1.0)]
         rel = 2
@@ -230,7 +272,7 @@ def gen_ctor_call(rng):
             levels = [0] + levels
             times = [kw.get('delay_time', 0.1)] + times
             rel = 3
-        exp = dict(levels=[x + bias for x in levels], times=times,
+        exp = dict(levels=[ew(add, x, bias) for x in levels], times=times,
                    curves=kw.get('curve', -4.0), release_node=rel,
                    loop_node=None)
     elif name == 'asr':
